@@ -152,6 +152,41 @@ specs["C07"] = {"property": "C07",
     "outside_claim": ["resolutions above 5x5, frame-compare-gap > 3 and streams longer than F = gap+4 frames (ring fill, first wrap and mark expiry are inside)", "Verbose=true debug tracker (float averaging in logging only)"],
     "stubs_doc": ["log.Print* -> no-op"], "jobs": c07}
 
+c08 = []
+for (W, H, e, quick) in [(3, 3, 1, True), (2, 2, 0, True), (4, 4, 1, False), (5, 4, 1, False), (5, 5, 2, True), (5, 5, 1, False)]:
+    t = "" if quick else "thorough"
+    base = {"W": [W], "H": [H], "e": [e], "g": [1, 2], "F": [5]}
+    baset = {"W": [W], "H": [H], "e": [e], "g": [1, 2, 3], "F": [7]}
+    for nm, extra in [("border_fixed", {"DYN": [0], "CLAIM": [1], "PV": [0]}), ("border_dyn", {"DYN": [1], "CLAIM": [1], "PV": [0, 2]}), ("cold_fixed", {"DYN": [0], "CLAIM": [2], "PV": [0]})]:
+        gq = dict(base); gq.update(extra)
+        gt = dict(baset); gt.update(extra)
+        c08.append(det_job(f"{nm}_{W}x{H}e{e}", "ZZ_C08_bmc", gq, gt, t, uf=True))
+specs["C08"] = {"property": "C08",
+    "explanation": "Self-composition on the real motion detector (SSA->SMT): two detectors built identically are fed F frames that are equal except (claim 1) in the edge border, where both streams carry independent arbitrary values, with a fixed or a dynamic threshold, or (claim 2, fixed threshold) at interior pixels flagged 'cold' where both values are arbitrary but <= temp-thresh. Telemetry is arbitrary (FFC allowed) and shared. After every frame the detection results are asserted equal; with the dynamic threshold also tempThresh and the background interior. All thresholds, mode flags, min/max bounds and pixels are symbolic. Float operations of the dynamic threshold are encoded as uninterpreted functions: equality proved under UF holds for every interpretation. Recording boundaries are then equal because MotionProcessor consumes only the Detect bit (C01-C04 step lemmas).",
+    "assumptions": COMMON_ASSUME + ["floats as uninterpreted functions (sound for 'holds'; a UF counterexample is reported only if the native replay reproduces it)"],
+    "outside_claim": ["shapes above 5x5, gap > 3, more than 7 frames", "Verbose=true debug tracker"], "stubs_doc": ["log.Print* -> no-op"], "jobs": c08}
+
+c09 = []
+for (W, H, e, quick) in [(2, 2, 0, True), (3, 3, 1, True), (4, 4, 1, False)]:
+    t = "" if quick else "thorough"
+    for g in [1, 2, 3]:
+        if quick and g == 3:
+            tt = "thorough"
+        else:
+            tt = t
+        L = g + 5
+        pats = [1, 3, 5, 7, 9, 1 << 2, (1 << 2) | (1 << 4)]
+        pre = sorted(set([0, 1, g + 2]))
+        for dyn in [0, 1]:
+            gq = {"W": [W], "H": [H], "e": [e], "g": [g], "DYN": [dyn], "PV": [0] if dyn == 0 else [0, 2], "PRE": pre, "L": [L], "PAT": pats[:4] if tt == "" else pats, "RESET": [0]}
+            c09.append(det_job(f"ffc_{W}x{H}e{e}g{g}d{dyn}", "ZZ_C09_bmc", gq, None, tt, uf=True))
+        gq = {"W": [W], "H": [H], "e": [e], "g": [g], "DYN": [0], "PV": [0], "PRE": pre, "L": [g + 4], "PAT": [0], "RESET": [1]}
+        c09.append(det_job(f"reset_{W}x{H}e{e}g{g}", "ZZ_C09_bmc", gq, None, tt, uf=True))
+specs["C09"] = {"property": "C09",
+    "explanation": "Bounded symbolic verification of the real motion detector around flat-field corrections and camera resets (SSA->SMT). Two detectors are first fed PRE clean frames whose pixel content is independent between them (arbitrary pre-FFC history), then L frames identical in both whose FFC pattern is a concrete bit mask (single FFC frame, several, back-to-back periods separated by 0..2 clean frames, FFC in the very first frames) with symbolic telemetry inside/outside the 10 s window; or a camera Reset (fixed threshold). Asserted: (a) every frame inside the window and the frame directly following it reports no motion in both runs; (b) from the first clean frame after the period (or after the reset) on, both runs agree on detection, and with the dynamic threshold on tempThresh and the background interior - i.e. nothing depends on any frame from before the period. Floats as uninterpreted functions.",
+    "assumptions": COMMON_ASSUME + ["floats as uninterpreted functions", "pre-period frames are FFC-free"],
+    "outside_claim": ["shapes above 4x4, gap > 3, PRE > gap+2, periods longer than the listed patterns (pattern bit masks are concrete per query)", "dynamic threshold across Reset (the property restricts reset-independence to the fixed threshold)"], "stubs_doc": ["log.Print* -> no-op"], "jobs": c09}
+
 os.makedirs("/verif/checks", exist_ok=True)
 for pid, sp in specs.items():
     json.dump(sp, open(f"/verif/checks/{pid}.json", "w"), indent=1)
